@@ -95,15 +95,14 @@ def bytes_sx(b):
 
 class C09(Prop):
     ID = "C09"
-    THEOREMS = ["C09_header_codec", "C09_zoom_directory_codec", "C09_summary_codec", "C09_section_codec",
-                "C09_zoom_record_codec", "C09_zoom_section_codec", "C09_chrom_tree_codec", "C09_rtree_codec"]
+    THEOREMS = ["C09_header_codec", "C09_zoom_directory_codec", "C09_summary_codec", "C09_section_codec", "C09_zoom_record_codec", "C09_zoom_section_codec", "C09_chrom_tree_codec", "C09_rtree_codec", "C09_buf_size", "C09_buf_size_multipass", "C09_model_uncompressed", "C09_decode_encode", "C09_decode_encode_multipass", "C09_decode_encode_lenient", "C09_records_are_input", "C09_ids_first_appearance", "C09_summary_is_folded", "C09_chrom_keys_refuted"]
     RULE = ("bbi cases (bigWig: bbigen.bw_case; bigBed: bedgen.bed_case): 1-6 chromosomes, layouts from the grammars, "
             "compress x items_per_slot{1,2,3,7,1024} x block_size{2,3,4,5,256} x zoom modes (automatic, manual incl. odd lists, none) x "
             "single/two pass; 'nice' cases use small dyadic values so that summary and zoom statistics are compared exactly; "
             "a corruption stream changes one header / tree / index / block field of a real file (decoder must answer None); "
             "non-trivial = accepted input with at least 2 records; distinct = distinct case text")
     CORRESPONDENCE = ("Spec/FormatDecode.decode on the real file (blocks inflated by Python zlib on the ranges pass A asks for) = "
-                      "decode on the bytes of Model/BigWigWriteZ.v; uncompressed: real bytes = model bytes")
+                      "decode on the bytes of the writer model (Model/BigWigWriteZ.v, Model/BigBedWrite.v); uncompressed: real bytes = model bytes")
     TRUSTED = ["Python zlib (inflates the byte ranges the decoder asks for, checks each is one complete zlib stream)",
                "tools/vlib/props/C09.py glue (pass A -> zlib -> pass B; corruption of single fields)"]
     ASSUMPTIONS = ["f32 -0.0 / NaN are not generated (the sign of zero is not modelled)",
@@ -243,8 +242,8 @@ class C09(Prop):
         return "(0 %s %d %s %s)" % ("()" if compressed else bytes_sx(data), zok, decoded, "()" if lenient is None else "(%d)" % lenient)
 
     def same(self, case, impl_out, model_out):
-        if _CORR.search(case) or case.startswith("(1 "):
-            return True          # corruption stream: no model line; bigBed: writer model not yet available
+        if _CORR.search(case):
+            return True          # corruption stream: no model line
         return impl_out == model_out
 
     # ------------------------------------------------------------------ findings
